@@ -72,7 +72,13 @@ func (g *G) runMatchCase(c *matchCase, reps int) {
 		var p, f interface{}
 		var bs map[string]interface{}
 		if i == 0 {
-			p, f, bs = deepCopy(c.P, nil), deepCopy(c.F, nil), deepCopy(c.Bs, nil).(map[string]interface{})
+			// the first evaluation - the one compared with the model and judged by the oracles - works on storage the
+			// previous case's pattern and message occupied
+			if g.recycle == nil {
+				g.recycle = newRecycler()
+			}
+			p, f, bs = g.recycle.build(c.P), g.recycle.build(c.F), deepCopy(c.Bs, nil).(map[string]interface{})
+			defer func(p, f interface{}) { g.recycle.give(p); g.recycle.give(f) }(p, f)
 		} else {
 			p, f, bs = deepCopy(c.P, g), deepCopy(c.F, g), deepCopy(c.Bs, g).(map[string]interface{})
 		}
